@@ -227,7 +227,9 @@ def stories(r, n, **kw):
 
 def reject_stories(r, n, **kw):
     kinds = ["low_expiry", "low_total", "other_invoice", "other_amount"]
-    return [story_case(r.fork(), ending=r.choice(PAY_ENDINGS), reject=(kinds[i % 4], (i // 4) % 4), npieces=1 + (i // 16) % 3, **kw) for i in range(n)]
+    # every other "other_amount" story uses ONE amountless invoice whose parts disagree on the declared amount
+    return [story_case(r.fork(), ending=r.choice(PAY_ENDINGS), reject=(kinds[i % 4], (i // 4) % 4), npieces=1 + (i // 16) % 3,
+                       amountless=(i % 8 == 3 or i % 8 == 6), **kw) for i in range(n)]
 
 def crash_sweep(r, nbase, stride, probe=False, **kw):
     out = []
